@@ -1,6 +1,117 @@
-"""Kani runner (bounded stand-ins and full-domain loop-free harnesses). Filled in per unit."""
-import os, time
+"""Kani runner: bounded stand-ins and full-domain loop-free harnesses on text cut from /repo.
+
+A Kani unit is a directory contracts/<UNIT>/ with `kani.rs`, a template in the same directive language
+as the Verus units (the expression / function under test is cut from the working tree on every run);
+it becomes src/lib.rs of a scratch crate (no dependencies; `cargo kani` cannot build the real crate
+offline, DESIGN K1).  Harness list, bounds and unwind values come from contracts/properties.json.
+"""
+import json
+import os
+import re
+import subprocess
+import sys
+import time
+
+sys.path.insert(0, os.path.dirname(os.path.abspath(__file__)))
+from assemble import process_template  # noqa: E402
+from extract import CutError  # noqa: E402
+
+CARGO_TOML = """[package]
+name = "s4verif_kani_%s"
+version = "0.1.0"
+edition = "2021"
+[dependencies]
+[workspace]
+"""
 
 
 def run_unit(u, unit_dir, repo_root, scratch, tier):
-    return {'unit': u['unit'], 'status': 'undecided', 'reason': 'kani runner not built yet', 'harnesses': [], 'wall_s': 0}
+    t0 = time.time()
+    name = u['unit']
+    res = {'unit': name, 'status': 'undecided', 'harnesses': [], 'trusted': [], 'wall_s': 0}
+    tmpl = os.path.join(unit_dir, u.get('template', 'kani.rs'))
+    try:
+        asm = process_template(name, tmpl, repo_root)
+    except CutError as e:
+        res['reason'] = 'cutter: %s' % e
+        res['wall_s'] = time.time() - t0
+        return res
+    crate = os.path.join(scratch, 'crate')
+    os.makedirs(os.path.join(crate, 'src'), exist_ok=True)
+    with open(os.path.join(crate, 'Cargo.toml'), 'w') as f:
+        f.write(CARGO_TOML % name.lower())
+    text = asm.text()
+    with open(os.path.join(crate, 'src', 'lib.rs'), 'w') as f:
+        f.write(text)
+    res['cuts'] = asm.cuts
+    res['generated'] = os.path.join(crate, 'src', 'lib.rs')
+    for ln in text.split('\n'):
+        mm = re.match(r'\s*//\s*ASSUMED:\s*(.*)', ln)
+        if mm:
+            res['trusted'].append('%s: kani stand-in: %s' % (name, mm.group(1)))
+    env = dict(os.environ, CARGO_NET_OFFLINE='true', CARGO_TARGET_DIR=os.path.join(scratch, 'target'))
+    hs = [h for h in u.get('harnesses', []) if tier == 'thorough' or h.get('tier', 'quick') == 'quick']
+    cmds = []
+    any_fail = False
+    any_undecided = None
+    for h in hs:
+        cmd = ['cargo', 'kani', '--harness', h['name']] + h.get('args', [])
+        cmds.append(' '.join(cmd))
+        th = time.time()
+        try:
+            p = subprocess.run(cmd, cwd=crate, env=env, capture_output=True, text=True, timeout=h.get('timeout_s', 1500))
+            out = p.stdout + p.stderr
+        except subprocess.TimeoutExpired:
+            out = 'TIMEOUT'
+        dt = time.time() - th
+        if 'VERIFICATION:- SUCCESSFUL' in out:
+            r = 'SUCCESSFUL'
+        elif 'VERIFICATION:- FAILED' in out:
+            r = 'FAILED'
+        else:
+            r = 'UNDECIDED'
+        failed_checks = []
+        if r == 'FAILED':
+            for mm in re.finditer(r'Failed Checks: (.*)\n\s*File: "([^"]*)", line (\d+)', out):
+                failed_checks.append({'check': mm.group(1), 'file': mm.group(2), 'line': int(mm.group(3))})
+            if not failed_checks:
+                for mm in re.finditer(r'Check \d+: (\S+)\n\s*- Status: FAILURE\n\s*- Description: "([^"]*)"\n\s*- Location: (\S+)', out):
+                    failed_checks.append({'check': mm.group(2), 'where': mm.group(3)})
+            # an unwinding assertion that fails is a bound that is too small, not a violation
+            if failed_checks and all('unwinding assertion' in c['check'] for c in failed_checks):
+                r = 'UNDECIDED'
+        entry = {'name': h['name'], 'bounded': bool(h.get('bounded')), 'bound': h.get('bound'), 'result': r, 'time_s': round(dt, 1),
+                 'failed_checks': failed_checks[:10], 'expect': h.get('expect', 'SUCCESSFUL')}
+        if r == 'UNDECIDED':
+            entry['tail'] = out[-1500:]
+        res['harnesses'].append(entry)
+        if h.get('expect') == 'FAILED':
+            # negative control: a harness that must fail (vacuity guard)
+            if r != 'FAILED':
+                any_undecided = 'control harness %s did not fail (%s)' % (h['name'], r)
+            continue
+        if r == 'FAILED':
+            any_fail = True
+        elif r == 'UNDECIDED':
+            any_undecided = 'harness %s undecided' % h['name']
+    res['cmd'] = ' ; '.join(cmds)
+    if any_fail:
+        res['status'] = 'violation'
+        res['real_failures'] = []
+        for e in res['harnesses']:
+            if e['result'] == 'FAILED' and e['expect'] != 'FAILED':
+                res['real_failures'].append({
+                    'message': 'kani harness FAILED', 'fn': e['name'], 'class': 'semantic',
+                    'spans': [{'line': c.get('line', 0), 'label': None, 'text': c['check'], 'origin': None} for c in e['failed_checks'][:3]],
+                    'rendered': 'cargo kani --harness %s: VERIFICATION:- FAILED\n' % e['name'] + '\n'.join('  %s' % c for c in e['failed_checks'][:10]),
+                })
+    elif any_undecided:
+        res['status'] = 'undecided'
+        res['reason'] = any_undecided
+    elif hs:
+        res['status'] = 'held'
+    else:
+        res['status'] = 'held'
+        res['reason'] = 'no harness selected for this tier'
+    res['wall_s'] = time.time() - t0
+    return res
